@@ -482,7 +482,8 @@ def decorate_dup(sc, prof, rr):
                        both before the Receiver exists (the majority), one before and one after, both after.
     Every message naming that name arrives strictly after BOTH registrations and is a valid known-task message: it must enter
     the designated function exactly once (the driver logs the shadowed function's entries as shadow.in).
-    Not generated (unchanged-tree behaviour, corpus/C01/findings): the hidden function visible at Receiver.__init__, the
+    Generated only when the profile sets dup_stale_any (C01 does since /repo 7e92bc1 repaired the stale per-name cache, defect
+    D19): the hidden function visible at Receiver.__init__, the
     designated one registered only afterwards, and parameter lists whose INJECTED parameters differ - the Receiver keeps the
     dependency graph it prepared for the name (dup_stale: such pairs get equal injected parameters; under run_receiver_task,
     which builds a new Receiver after every failed listen(), that is every pair whose hidden function is registered at an earlier
